@@ -2,6 +2,7 @@ mod rng;
 mod coqfmt;
 mod e2e;
 mod leg_c14;
+mod leg_c05;
 mod leg_c15;
 mod leg_c17;
 mod dbg_tmp;
@@ -18,6 +19,7 @@ fn main() {
         "c14-unit" => leg_c14::run_unit(rest),
         "c14-e2e" => leg_c14::run_e2e(rest),
         "c15-e2e" => leg_c15::run(rest),
+        "c05-e2e" => leg_c05::run(rest),
         "dbg" => dbg_tmp::run(rest),
         other => {
             eprintln!("unknown leg {other}");
